@@ -1178,7 +1178,8 @@ func (ndb *nodeDB) decrVersionReaders(version int64) {
 }
 
 func isReferenceRoot(bz []byte) (bool, int) {
-	if bz[0] == nodeKeyFormat.Prefix()[0] {
+	// an empty value is the stored root of an empty tree, not a reference
+	if len(bz) > 0 && bz[0] == nodeKeyFormat.Prefix()[0] {
 		return true, len(bz)
 	}
 	return false, 0
